@@ -1286,7 +1286,7 @@ static void l_plan(vh_rng *r, struct lsub *s)
 static int l_pick_opts(vh_rng *r)
 {
 	int o = 0;
-	if (vh_chance(r, 1, 2)) { o |= BEV_OPT_DEFER_CALLBACKS; if (vh_chance(r, 1, 3)) o |= BEV_OPT_UNLOCK_CALLBACKS; }
+	if (vh_chance(r, 1, 2)) { o |= BEV_OPT_DEFER_CALLBACKS; if (vh_chance(r, 1, 2)) o |= BEV_OPT_UNLOCK_CALLBACKS; }
 	if (vh_chance(r, 1, 3)) o |= BEV_OPT_THREADSAFE;
 	if (vh_chance(r, 2, 3)) o |= BEV_OPT_CLOSE_ON_FREE;
 	return o;
